@@ -236,5 +236,5 @@ TypeOK == /\ NV >= 1
 \* Scenario export: every maximal history is printed once (GEN configurations), together with the finding
 \* signatures <<invariant, deviations>> of the model's own history (none for the intended design)
 GenPrint == (nops = MaxOps /\ todo = <<>>) =>
-              PrintT(<<"SCN", ToJson([hist |-> hist, sigs |-> SetToSeq(SigsOf(vers))])>>)
+              PrintT(<<"SCN", ToJson([hist |-> hist, sigs |-> SetToSeq(SigsOf(Deviations, vers))])>>)
 =============================================================================
